@@ -19,8 +19,8 @@ func Where() (dir, file string) {
 // H is call path 1: a plain, non-inlinable function calling the next link.
 //
 //go:noinline
-func H(name string, depth int) (dom string, err error) {
-	return p2.H(name, depth)
+func H(name string, shape, depth int) (dom string, err error) {
+	return p2.H(name, shape, depth)
 }
 
 // T carries call path 2.
@@ -28,13 +28,13 @@ type T struct{}
 
 // Next is the next link of call path 2, reached by dynamic dispatch.
 var Next interface {
-	G(name string, depth int) (string, error)
+	G(name string, shape, depth int) (string, error)
 } = &p2.T{}
 
 // G is call path 2: a non-inlinable method calling the next link through an
 // interface value.
 //
 //go:noinline
-func (t *T) G(name string, depth int) (dom string, err error) {
-	return Next.G(name, depth)
+func (t *T) G(name string, shape, depth int) (dom string, err error) {
+	return Next.G(name, shape, depth)
 }
